@@ -121,6 +121,48 @@ let () =
       let line = input_line stdin in
       toks := List.filter (fun s -> s <> "") (String.split_on_char ' ' line);
       let cmd = next () in
+      if cmd = "am" then begin
+        (* am value : plain, as_model, eval of the promoted tree, cnorm, as_model of the result *)
+        let v = p_value () in
+        if !toks <> [] then failwith "trailing tokens";
+        Buffer.clear b;
+        let pl = plain v in
+        o_bool pl;
+        let r = as_model v in
+        o_res o_value r;
+        (match r with Ok w -> tok "some"; o_res o_value (as_model w) | Err _ -> tok "none");
+        if pl then begin
+          tok "some";
+          o_run (eval (fun _ st -> (Err EUnmodelled, st)) (model_of v) []);
+          o_value (cnorm v)
+        end else tok "none";
+        print_string (Buffer.contents b); print_char '\n'
+      end else if cmd = "heap" then begin
+        (* heap fuel n node* k root* ; node := "A" value | "C" ckind count idx* ; ckind := l t s d | m kind *)
+        let rec nat_of_int n = if n = 0 then O else S (nat_of_int (n - 1)) in
+        let rec int_of_nat = function O -> 0 | S n -> 1 + int_of_nat n in
+        let fuel = nat_of_int (p_int ()) in
+        let n = p_int () in
+        let h = many n (fun () -> match next () with
+          | "A" -> HAtom (p_value ())
+          | "C" ->
+              let c = (match next () with
+                | "l" -> CPyList | "t" -> CPyTuple | "s" -> CPySet | "d" -> CPyDict
+                | "m" -> CModelSeq (p_kind ()) | t -> failwith ("bad ckind " ^ t)) in
+              let k = p_int () in HCont (c, many k (fun () -> nat_of_int (p_int ())))
+          | t -> failwith ("bad node " ^ t)) in
+        let k = p_int () in
+        let roots = many k (fun () -> nat_of_int (p_int ())) in
+        if !toks <> [] then failwith "trailing tokens";
+        Buffer.clear b;
+        let (outs, seen) = run_history fuel (List.map (fun a -> (h, a)) roots) [] in
+        List.iter (fun o -> match o with
+          | HOk w -> tok "ok"; o_value w
+          | HErr e -> tok "err"; o_err e
+          | HFuel -> tok "fuel") outs;
+        o_int (List.length (List.map int_of_nat seen));
+        print_string (Buffer.contents b); print_char '\n'
+      end else begin
       let nn = p_int () in
       let ntbl = many nn (fun () -> let k = p_text () in let v = p_text () in (k, v)) in
       let norm s = match List.assoc_opt s ntbl with Some v -> v | None -> s in
@@ -156,5 +198,6 @@ let () =
             | Err _ -> tok "none")
        | _ -> failwith ("bad cmd " ^ cmd));
       print_string (Buffer.contents b); print_char '\n'
+      end
     done
   with End_of_file -> ()
